@@ -81,6 +81,7 @@ var storeBoxes = func() []string {
 
 // storeRun is one live store plus its model and the ids ever returned.
 type storeRun struct {
+	held          []heldMsg // handles returned by earlier gets (see apply)
 	h             *sys.StoreH
 	mo            *model.Store
 	ids           map[string][]string // mailbox -> ids ever returned, in arrival order
@@ -143,6 +144,34 @@ func (r *storeRun) resolve(mb, ref string) (id string, m *model.Msg, kind string
 // apply performs op on the implementation and the model.  When check is true the return values
 // are compared with the model's and problems are returned as (key, detail) pairs.
 func (r *storeRun) apply(o sop, check bool) (probs [][2]string, changed bool) {
+	probs, changed = r.applyOp(o, check)
+	if !check {
+		return probs, changed
+	}
+	// messages handed out by earlier gets are values: as long as the message is in the store, what
+	// the handle says (mailbox, id, content) does not change because other operations have run
+	be := r.h.Spec.Backend
+	for _, h := range r.held {
+		if r.mo.ByID(h.mb, h.id) != h.mm {
+			continue // gone (or, after a restart, gone and its id given to a later message)
+		}
+		o2 := sys.Observe(h.msg)
+		if o2.Mailbox != h.mb || o2.ID != h.id || o2.BodyErr != "" || o2.Body != h.body {
+			probs = append(probs, [2]string{be + "|held-message-changed", fmt.Sprintf("a message obtained earlier with GetMessage(%q,%q) and still in the store now reads mailbox=%q id=%q, %d bytes of content (error %q); it was mailbox=%q id=%q, %d bytes", h.mb, h.id, o2.Mailbox, o2.ID, len(o2.Body), o2.BodyErr, h.mb, h.id, len(h.body))})
+			break
+		}
+	}
+	return probs, changed
+}
+
+type heldMsg struct {
+	msg    storage.Message
+	mm     *model.Msg
+	mb, id string
+	body   string
+}
+
+func (r *storeRun) applyOp(o sop, check bool) (probs [][2]string, changed bool) {
 	st := r.h.Store
 	be := r.h.Spec.Backend
 	mb := storeBoxes[o.MB]
@@ -243,6 +272,9 @@ func (r *storeRun) apply(o sop, check bool) (probs [][2]string, changed bool) {
 	case "get":
 		id, mm, kind := r.resolve(mb, o.Ref)
 		m, err := st.GetMessage(mb, id)
+		if err == nil && !isNilMsg(m) && mm != nil && len(r.held) < 4 {
+			r.held = append(r.held, heldMsg{msg: m, mm: mm, mb: mb, id: mm.ID, body: sys.Observe(m).Body})
+		}
 		if !check {
 			return nil, false
 		}
